@@ -11,7 +11,7 @@ RULE = (
     "cases = seeded random model descriptors (feature-first generator, DESIGN 4.2) that pass "
     "the reference model's 'supported model' screening; each is solved by the real generated "
     "solve function for 2 parameter sets (same function object), 1/3 also with jit=False, and "
-    "every entry of every period is compared with the numpy reference (tol 1e-9 x64 / 1e-4 f32). "
+    "every entry of every period is compared with the numpy reference (tol 1e-9 x64 / 1e-3 f32). "
     "non-trivial = (T>=2 or a binding constraint/filter) and non-constant values; distinct = "
     "distinct (shape signature, parameter hash)."
 )
